@@ -40,7 +40,7 @@ def r01_1(ctx, run, rule='R01.1'):
             run.violation(rule, 'README.md', f'doc-row[{cname}]', 'the README no longer documents this header value (oracle lost)')
             continue
         if c is None or c.get('val') is None:
-            run.violation(rule, C + cname, f'const[{cname}]', 'constant not found in the crate (anchor lost)')
+            run.undecided(rule, C + cname, f'const[{cname}]', 'constant not found in the crate (anchor lost)')
             continue
         doc = int(m.group(1), 16)
         n += 1
@@ -52,7 +52,7 @@ def r01_1(ctx, run, rule='R01.1'):
     for p, t in (('SCALAR_PREFIX', 'SCALAR_CONTAINER_TAG'), ('OBJECT_PREFIX', 'OBJECT_CONTAINER_TAG'), ('ARRAY_PREFIX', 'ARRAY_CONTAINER_TAG')):
         a, b = cv(f, p), cv(f, t)
         if a is None or b is None:
-            run.violation(rule, C + p, f'const[{p}]', 'constant not found (anchor lost)')
+            run.undecided(rule, C + p, f'const[{p}]', 'constant not found (anchor lost)')
         elif a != (b >> 24):
             run.violation(rule, C + p, f'const[{p}]', f'{a:#x} is not the first byte of {t} ({b:#010x})', mloc(f.consts[C + p]))
         else:
@@ -83,7 +83,7 @@ def r01_2(ctx, run, rule='R01.2'):
     g = lambda n: cv(f, n)
     names = ['CONTAINER_HEADER_TYPE_MASK', 'CONTAINER_HEADER_LEN_MASK', 'JENTRY_IS_OFF_FLAG', 'JENTRY_TYPE_MASK', 'JENTRY_OFF_LEN_MASK']
     if any(g(n) is None for n in names):
-        run.violation(rule, '<crate>', 'masks', 'mask constants not found (anchor lost)')
+        run.undecided(rule, '<crate>', 'masks', 'mask constants not found (anchor lost)')
         return
     tm, lm = g('CONTAINER_HEADER_TYPE_MASK'), g('CONTAINER_HEADER_LEN_MASK')
     ok = (tm & lm) == 0 and (tm | lm) == 0xFFFFFFFF and bin(tm).count('1') == 3 and bin(lm).count('1') == 29 and lm == (1 << 29) - 1
@@ -100,7 +100,7 @@ def r01_2(ctx, run, rule='R01.2'):
     for fam, mask, nm in ((heads, tm, 'header'), (ents, jt, 'jentry')):
         vals = [g(n) for n in fam]
         if any(v is None for v in vals):
-            run.violation(rule, '<crate>', f'tags[{nm}]', 'tag constants not found (anchor lost)')
+            run.undecided(rule, '<crate>', f'tags[{nm}]', 'tag constants not found (anchor lost)')
             continue
         inside = all((v & ~mask) == 0 for v in vals)
         distinct = len(set(vals)) == len(vals)
@@ -173,7 +173,7 @@ def r01_3(ctx, run, rule='R01.3'):
     enc = {}
     b = f.one("ser::Encoder::<'a>::encode_value")
     if b is None:
-        run.violation(rule, 'ser::Encoder::encode_value', 'body', 'function not found (anchor lost)')
+        run.undecided(rule, 'ser::Encoder::encode_value', 'body', 'function not found (anchor lost)')
     else:
         ps, capped = explore(b)
         for p in ps:
@@ -214,7 +214,7 @@ def r01_3(ctx, run, rule='R01.3'):
     for fn, tag in (('encode_scalar', 'SCALAR_CONTAINER_TAG'), ('encode_array', 'ARRAY_CONTAINER_TAG'), ('encode_object', 'OBJECT_CONTAINER_TAG')):
         b = f.one(f"ser::Encoder::<'a>::{fn}")
         if b is None:
-            run.violation(rule, f'ser::Encoder::{fn}', 'header', 'function not found (anchor lost)')
+            run.undecided(rule, f'ser::Encoder::{fn}', 'header', 'function not found (anchor lost)')
             continue
         check_header_write(f, run, rule, b, tag)
     # Encoder::encode dispatch
@@ -236,11 +236,11 @@ def r01_3(ctx, run, rule='R01.3'):
         ok = table.get(ai) == ['encode_array'] and table.get(oi) == ['encode_object'] and table.get('otherwise') == ['encode_scalar']
         (run.proved if ok else run.violation)(rule, b.path, 'dispatch', 'Array->encode_array, Object->encode_object, other->encode_scalar' if ok else f'top-level dispatch table is {table}', f'{b.file}:{b.line}')
     else:
-        run.violation(rule, 'ser::Encoder::encode', 'dispatch', 'function not found (anchor lost)')
+        run.undecided(rule, 'ser::Encoder::encode', 'dispatch', 'function not found (anchor lost)')
     # decoder: header switch
     b = f.one("de::Decoder::<'a>::decode_jsonb")
     if b is None:
-        run.violation(rule, 'de::Decoder::decode_jsonb', 'switch', 'function not found (anchor lost)')
+        run.undecided(rule, 'de::Decoder::decode_jsonb', 'switch', 'function not found (anchor lost)')
     else:
         ps, _ = explore(b)
         table = {}
@@ -268,7 +268,7 @@ def r01_3(ctx, run, rule='R01.3'):
     # decoder: entry switch -> constructed variant
     b = f.one("de::Decoder::<'a>::decode_scalar")
     if b is None:
-        run.violation(rule, 'de::Decoder::decode_scalar', 'switch', 'function not found (anchor lost)')
+        run.undecided(rule, 'de::Decoder::decode_scalar', 'switch', 'function not found (anchor lost)')
     else:
         ps, _ = explore(b)
         table = {}
@@ -305,7 +305,7 @@ def r01_3(ctx, run, rule='R01.3'):
     for fn, var in (('decode_array', 'Array'), ('decode_object', 'Object')):
         b = f.one(f"de::Decoder::<'a>::{fn}")
         if b is None:
-            run.violation(rule, f'de::Decoder::{fn}', 'result', 'function not found (anchor lost)')
+            run.undecided(rule, f'de::Decoder::{fn}', 'result', 'function not found (anchor lost)')
             continue
         ps, _ = explore(b)
         oks = set()
@@ -470,7 +470,7 @@ def r01_5(ctx, run, rule='R01.5', which='ser'):
     for path, kind in targets:
         b = f.body(path)
         if b is None:
-            run.violation(rule, path, 'contract', 'function not found (anchor lost)')
+            run.undecided(rule, path, 'contract', 'function not found (anchor lost)')
             continue
         def is_buffer(t, b=b):
             x = deref_all(t)
@@ -504,7 +504,7 @@ def r01_5(ctx, run, rule='R01.5', which='ser'):
     for path, nm in zero_fns:
         b = f.body(path)
         if b is None:
-            run.violation(rule, path, 'appends-nothing', 'function not found (anchor lost)')
+            run.undecided(rule, path, 'appends-nothing', 'function not found (anchor lost)')
             continue
         bad = [canon(t['callee'].get('resolved') or t['callee'].get('written') or '') for _, t in b.calls()
                if called(callee_of(t), 'Vec::push', 'Vec::extend_from_slice', 'Vec::resize', 'Vec::insert', 'Write::write_all', 'WriteBytesExt::write_u32', 'Vec::truncate', 'Vec::clear')]
@@ -514,7 +514,7 @@ def r01_5(ctx, run, rule='R01.5', which='ser'):
             run.proved(rule, path, 'appends-nothing', 'only index-assigns into the buffer')
     b = f.body(reserve)
     if b is None:
-        run.violation(rule, reserve, 'appends-its-argument', 'function not found (anchor lost)')
+        run.undecided(rule, reserve, 'appends-its-argument', 'function not found (anchor lost)')
     else:
         ps, _ = explore(b)
         ok = False
@@ -544,14 +544,14 @@ def r01_7(ctx, run, rule='R01.7'):
     f = ctx.facts
     al = f.aliases.get('value::Object')
     if al is None:
-        run.violation(rule, 'value::Object', 'alias', 'type alias not found (anchor lost)')
+        run.undecided(rule, 'value::Object', 'alias', 'type alias not found (anchor lost)')
     else:
         e = al['expands_to']
         ok = e.get('path') == 'std::collections::BTreeMap' and e['args'] and e['args'][0].get('path') == 'std::string::String'
         (run.proved if ok else run.violation)(rule, 'value::Object', 'alias', f"= {e['s']}" if ok else f"Object expands to {e['s']}: keys would not be emitted sorted and unique")
     b = f.one("ser::Encoder::<'a>::encode_object")
     if b is None:
-        run.violation(rule, 'ser::Encoder::encode_object', 'key-source', 'function not found (anchor lost)')
+        run.undecided(rule, 'ser::Encoder::encode_object', 'key-source', 'function not found (anchor lost)')
         return
     iters = [t for _, t in b.calls() if called(callee_of(t), 'BTreeMap::iter', 'BTreeMap::keys', 'BTreeMap::values')]
     others = [canon(callee_of(t)) for _, t in b.calls() if 'iter' in canon(callee_of(t)).split('::')[-1] and not called(callee_of(t), 'BTreeMap::iter', 'BTreeMap::keys', 'BTreeMap::values', 'IntoIterator::into_iter')]
